@@ -47,7 +47,8 @@ theorem ply_reader_claims_predicted (ws : List WProp) (hnd : (wsNames ws).Nodup)
       (expectNames ws r).map (fun p =>
         ⟨r.attr, p.1, (p.1.map (posOf (wsProps ws))).map (locOf true (wsProps ws)), some p.2⟩) := by
   obtain ⟨a, b, c⟩ := defaultReaders_shape r hr
-  exact buildReader_expect ws hnd r a b c ((claimGuard_parts ws hg).1 r hr)
+  have := buildReader_expect true ws hnd r a b c ((claimGuard_parts ws hg).1 r hr)
+  simpa [expectBuilt, tyOf] using this
 
 /-- THE WHOLE READER LIST, inside the guard: every reader `MeshReader.Read` builds on the written header is located where
 its names are (one type, byte offsets = Σ sizes before, in header order); no two built readers share a key (so no
@@ -58,8 +59,9 @@ theorem ply_claim_stage (ws : List WProp) (hnd : (wsNames ws).Nodup) (hg : claim
         LocatedNamed (headerProps ws) b (b.names.map (posOf (headerProps ws)))) ∧
     ((buildAll true (headerProps ws) defaultReaders true).map Built.key).Nodup ∧
     (∀ w ∈ ws, comesBack w = true →
-      ∃ b ∈ buildAll true (headerProps ws) defaultReaders true, b.attr = w.attr ∧ b.names = w.names) :=
-  claim_of_guard_ws ws hnd hg
+      ∃ b ∈ buildAll true (headerProps ws) defaultReaders true, b.attr = w.attr ∧ b.names = w.names) := by
+  obtain ⟨h1, h2, h3⟩ := claim_of_guard_ws true ws hnd hg (by simp)
+  exact ⟨fun b hb => located_of_good ws hnd b (h1 b hb), h2, h3⟩
 
 /-- `ClaimOK` — the claim-stage hypothesis of `ply_roundtrip_binary_partial` / `_uv` / `_bytes` — FROM THE GUARD, for every
 configuration and mesh whose write succeeds (a successful write makes the names distinct, writer.go:144-158) -/
